@@ -145,7 +145,7 @@ def build(spec):
     def mps(mm=None):
         return rand_mps(rng, model, qn_size, mm or m, cplx)
 
-    if n == 1 and (recipe in ("add", "dup", "apply_add", "recentred") or recipe.startswith("canon_")):
+    if n == 1 and (recipe in ("add", "dup", "apply_add", "recentred") or recipe.startswith("canon_") or recipe.startswith("near_")):
         recipe = "random" if kind != "mpo" else "plain"      # MatrixProduct.add does not support one-site chains (C03's business)
     dm_cplx = False
     if kind == "mpdm" and cplx:
@@ -179,6 +179,32 @@ def build(spec):
             a.move_qnidx(rng.randrange(n))
             b = rand_like(rng, a, model, qn_size, m, cplx)
             x = b.add(a)
+        elif recipe.startswith("near_"):
+            # near-canonical input: a canonical state one of whose non-centre sites gets a controlled off-diagonal
+            # Gram defect eps (column b += eps * column a inside one label block): near_<l|r>_<9|7|6>
+            right = recipe.split("_")[1] == "r"
+            eps = {"9": 1e-9, "7": 1e-7, "6": 1e-6}[recipe.split("_")[2]]
+            x = mps()
+            if right:
+                x.ensure_right_canonical()
+            else:
+                x.ensure_left_canonical()
+            cands = []
+            for j in (range(1, len(x)) if right else range(len(x) - 1)):
+                lab = [tuple(np.atleast_1d(q).tolist()) for q in (x.qn[j] if right else x.qn[j + 1])]
+                for a_ in range(len(lab)):
+                    for b_ in range(len(lab)):
+                        if a_ != b_ and lab[a_] == lab[b_]:
+                            cands.append((j, a_, b_))
+            if not cands:
+                raise GenFail("no bond with two equal labels to mix")
+            j, a_, b_ = rng.choice(cands)
+            t = np.array(np.asarray(x[j].array))
+            if right:
+                t[b_] = t[b_] + eps * t[a_]
+            else:
+                t[..., b_] = t[..., b_] + eps * t[..., a_]
+            x[j] = t
         elif recipe.startswith("canon_"):
             # sum / difference of two canonical states with EQUAL flags: every inner site of the result is a
             # block-diagonal isometry, only the boundary site far from the centre (the stack of the two boundary
@@ -203,7 +229,7 @@ def build(spec):
                 raise GenFail("sum of canonical states lost the flags")
         else:
             raise GenFail("recipe " + recipe)
-        if hasattr(x, "coeff") and rng.random() < 0.5:
+        if hasattr(x, "coeff") and rng.random() < 0.5 and not recipe.startswith("near_"):
             x.coeff = x.coeff * (1.7 if not cplx else (0.6 + 0.8j))
         if kind == "mpdm":
             x = MpDm.from_mps(x)
